@@ -476,7 +476,7 @@ func setAlgebraEffects(p *core.Program, r *core.Report, pre string, withD bool) 
 		}
 	}
 	r.RuleCounts[pre+"-methods"] = nMethods
-	r.Floor(pre+"-methods", 30)
+	r.Floor(pre+"-methods", 20) // today 32; single-caller helpers get inlined, the exported operations (about 25) stay
 
 	if !withD {
 		return
